@@ -100,20 +100,34 @@ HasAnalysis(lay) == lay.an \in {"header", "text"} /\ (lay.an = "text" => IsV3(la
 ZeroOff == [sb |-> 0, se |-> 0, db |-> 0, de |-> 0, ab |-> 0, ae |-> 0]
 NoFault == [k |-> "none", field |-> "-", how |-> "-", at |-> 0]
 
-Offsets(lay) ==
-  LET tlen == Len(Encode(TextPairs(lay, NoFault, ZeroOff), SLASH))
-      tb == 58 + lay.pad
+(* segment order after the HEADER: "tda" TEXT [sTEXT] DATA [ANALYSIS] (what every writer we know does), or   *)
+(* "dta" DATA TEXT [sTEXT] [ANALYSIS] (legal: segments are located by offsets only)                              *)
+OffTDA(lay, tlen, st, nb, at) ==
+  LET tb == 58 + lay.pad
       te == tb + tlen - 1
-      st == IF lay.stext /\ IsV3(lay.ver) THEN EncodeSupp(STextPairs, SLASH) ELSE <<>>
       sb == IF st = <<>> THEN 0 ELSE te + 1
       se == IF st = <<>> THEN 0 ELSE te + Len(st)
       db == te + 1 + Len(st) + lay.pad
-      nb == Len(DataBytes(lay))
       de == IF lay.endc = "last" THEN db + nb - 1 ELSE db + nb
-      at == IF HasAnalysis(lay) THEN Encode(APairs, SLASH) ELSE <<>>
       ab == IF at = <<>> THEN 0 ELSE db + nb + lay.pad
       ae == IF at = <<>> THEN 0 ELSE ab + Len(at) - 1
   IN [tb |-> tb, te |-> te, sb |-> sb, se |-> se, db |-> db, de |-> de, st |-> st, ab |-> ab, ae |-> ae, at |-> at]
+OffDTA(lay, tlen, st, nb, at) ==
+  LET db == 58 + lay.pad
+      de == IF lay.endc = "last" THEN db + nb - 1 ELSE db + nb
+      tb == db + nb + lay.pad
+      te == tb + tlen - 1
+      sb == IF st = <<>> THEN 0 ELSE te + 1
+      se == IF st = <<>> THEN 0 ELSE te + Len(st)
+      ab == IF at = <<>> THEN 0 ELSE te + 1 + Len(st) + lay.pad
+      ae == IF at = <<>> THEN 0 ELSE ab + Len(at) - 1
+  IN [tb |-> tb, te |-> te, sb |-> sb, se |-> se, db |-> db, de |-> de, st |-> st, ab |-> ab, ae |-> ae, at |-> at]
+Offsets(lay) ==
+  LET tlen == Len(Encode(TextPairs(lay, NoFault, ZeroOff), SLASH))
+      st == IF lay.stext /\ IsV3(lay.ver) THEN EncodeSupp(STextPairs, SLASH) ELSE <<>>
+      nb == Len(DataBytes(lay))
+      at == IF HasAnalysis(lay) THEN Encode(APairs, SLASH) ELSE <<>>
+  IN IF lay.order = "dta" THEN OffDTA(lay, tlen, st, nb, at) ELSE OffTDA(lay, tlen, st, nb, at)
 
 Write(lay, flt) ==
   LET o == Offsets(lay)
@@ -124,11 +138,9 @@ Write(lay, flt) ==
            \o RJust(DigitsOf(FV(flt, "h_db", hdb)), 8) \o RJust(DigitsOf(FV(flt, "h_de", hde)), 8)
            \o (IF lay.an = "header" THEN RJust(DigitsOf(o.ab), 8) \o RJust(DigitsOf(o.ae), 8)
                ELSE IF lay.ver = "2.0" THEN Spaces(16) ELSE RJust(<<48>>, 8) \o RJust(<<48>>, 8))
-           \o Spaces(lay.pad)
-           \o Encode(TextPairs(lay, flt, o), SLASH)
-           \o o.st
-           \o Zeros(lay.pad)
-           \o DataBytes(lay)
+           \o (IF lay.order = "dta"
+               THEN Zeros(lay.pad) \o DataBytes(lay) \o Spaces(lay.pad) \o Encode(TextPairs(lay, flt, o), SLASH) \o o.st
+               ELSE Spaces(lay.pad) \o Encode(TextPairs(lay, flt, o), SLASH) \o o.st \o Zeros(lay.pad) \o DataBytes(lay))
            \o (IF o.at = <<>> THEN <<>> ELSE Zeros(lay.pad) \o o.at)
   IN IF flt.k = "trunc" THEN SubSeq(f, 1, flt.at)
      ELSE IF flt.k = "empty" THEN <<>>
@@ -183,6 +195,8 @@ Segment(f, begin, end, delim0, supp) ==
       d == IF delim0 >= 0 THEN delim0 ELSE (IF ReadAt(f, begin, 1) = <<>> THEN -1 ELSE ReadAt(f, begin, 1)[1])
       raw == ReadAt(f, begin, n)
   IN IF n < -1 THEN [ok |-> FALSE, dict |-> {}, delim |-> d, warn |-> FALSE]
+     \* a segment extending beyond the end of the file is refused
+     ELSE IF Len(raw) < n THEN [ok |-> FALSE, dict |-> {}, delim |-> d, warn |-> FALSE]
      ELSE IF raw = <<>> THEN [ok |-> TRUE, dict |-> {}, delim |-> -1, warn |-> FALSE]
      ELSE LET r == Decode(raw, d, supp) IN
           IF r.k = "err" THEN [ok |-> FALSE, dict |-> {}, delim |-> d, warn |-> FALSE]
